@@ -558,7 +558,51 @@ example : toyPhase1 true [20, 10, 3001] = .error (.err "policy-commitment") := r
 /-- with the tag demoted the mutated transaction is let through — and the signature is the *same* one, over the
     recomposed transaction (4141), not over what the caller supplied -/
 example : (toyPhase1 false [20, 10, 3001]).toOption.map (·.2) = some 4141 := by decide
+
 end NonVacuity
+
+/-- **End to end, on the regenerated bodies**: what reaches LDK's builder when the raw entry point returns a signature.
+    For a readied channel (`counterparty_pubkeys = Some cp`) and `n ≤ 2^48 − 1` the signed `rtx` is the result of the single call
+    `CommitmentTransaction::new_with_auxiliary_htlc_data(INITIAL − n, to_broadcaster = decoded broadcaster value,
+    to_countersignatory = decoded countersigner value, counterparty funding key, own funding key,
+    TxCreationKeys::derive_new(request's point, counterparty delayed/HTLC basepoints, own revocation/HTLC basepoints), feerate of the
+    request, the HTLCs of the validated content (offered first, `amount_msat = value_sat * 1000`), the channel parameters of
+    `make_channel_parameters` as the counterparty's broadcastable)` — negotiated parameters, funding outpoint and validated content,
+    nothing else. -/
+theorem C04_fn_phase1_ldk_call
+    (self self' : Channel InMemorySigner Txid DelayedPaymentBasepoint HtlcBasepoint RevocationBasepoint PublicKey Secp256k1 EnforcementState ChannelId)
+    (tx : Transaction) (ws : List (List Nat)) (pt : PublicKey) (n feerate : Nat)
+    (off recv : List (HTLCInfo2 PaymentHash)) (sig : Signature)
+    (cp : ChannelPublicKeys DelayedPaymentBasepoint HtlcBasepoint RevocationBasepoint PublicKey)
+    (hcp : cpkeys self.keys = some cp) (hn : n ≤ 281474976710655)
+    (h : phase1Gen txOutLen validator validateChannelValue decode mkInfo2 node getState claimable incoming chainState validateCp
+           pubkeys cpkeys derive asCp ldkNew builtTx filterErr numOf pointOf redeem fundingKey sign outgoing
+           validatePayments setNext persist self tx ws pt n feerate off recv = .ok (self', sig)) :
+    ∃ info htlcs rtx params,
+      decode validator self.keys self.setup true tx ws = .ok info ∧
+      let info2 := mkInfo2 true info.to_countersigner_value_sat info.to_broadcaster_value_sat off recv feerate
+      Channel.htlcs_info2_to_oic info2.offered_htlcs info2.received_htlcs = .ok htlcs ∧
+      Channel.make_channel_parameters pubkeys featuresEmpty self = .ok params ∧
+      ldkNew (281474976710655 - n) info2.to_broadcaster_value_sat info2.to_countersigner_value_sat
+          cp.funding_pubkey (pubkeys self.keys).funding_pubkey
+          (derive self.secp_ctx pt cp.delayed_payment_basepoint cp.htlc_basepoint
+              (pubkeys self.keys).revocation_basepoint (pubkeys self.keys).htlc_basepoint)
+          feerate (htlcs.map (fun h => (h, ()))) (asCp params) = .ok rtx ∧
+      sign rtx (fundingKey self.keys)
+          (redeem (pubkeys self.keys).funding_pubkey self.setup.counterparty_points.funding_pubkey)
+          self.setup.channel_value_sat = .ok sig ∧
+      (filterErr "policy-commitment" = true → builtTx rtx = tx) := by
+  obtain ⟨info, htlcs, rtx, es', _, hinfo, _, hoic, hrtx, hsig, himp, _, _, _⟩ :=
+    C04_fn_phase1_signs_recomposed txOutLen validator validateChannelValue decode mkInfo2 node getState claimable incoming chainState
+      validateCp pubkeys cpkeys derive asCp ldkNew builtTx filterErr numOf pointOf redeem fundingKey sign outgoing validatePayments
+      setNext persist self self' tx ws pt n feerate off recv sig h
+  obtain ⟨params, hparams, hcall⟩ :=
+    C04_fn_make_counterparty_commitment_tx pubkeys cpkeys derive asCp ldkNew self pt n feerate
+      (mkInfo2 true info.to_countersigner_value_sat info.to_broadcaster_value_sat off recv feerate).to_countersigner_value_sat
+      (mkInfo2 true info.to_countersigner_value_sat info.to_broadcaster_value_sat off recv feerate).to_broadcaster_value_sat
+      htlcs cp hcp hn
+  rw [hcall] at hrtx
+  exact ⟨info, htlcs, rtx, params, hinfo, hoic, hparams, hrtx, hsig, himp⟩
 
 /-! ### The semantic entry point `sign_counterparty_commitment_tx_phase2`, body from the current source -/
 
@@ -614,6 +658,36 @@ theorem C04_fn_phase2_signs_built
   refine ⟨htlcs, rtx, es', ?_, hoic, hrtx, hsig, ?_, rfl⟩
   · cases u; exact hval
   · rw [← hn1v]; exact hes
+
+/-- end to end for the semantic entry point: the one call of LDK's builder behind the signatures of phase 2 — the request's
+    own balances (`to_broadcaster = to_counterparty`, `to_countersignatory = to_holder`), the request's HTLC lists as given
+    (offered first), its feerate, number and point, the channel's negotiated parameters -/
+theorem C04_fn_phase2_ldk_call
+    (ldkSign : InMemorySigner → CommitmentTransaction → Rs.M (Signature × List Signature))
+    (self self' : Channel InMemorySigner Txid DelayedPaymentBasepoint HtlcBasepoint RevocationBasepoint PublicKey Secp256k1 EnforcementState ChannelId)
+    (pt : PublicKey) (n feerate toHolder toCp : Nat) (off recv : List (HTLCInfo2 PaymentHash))
+    (sig : Signature) (hsigs : List Signature)
+    (cp : ChannelPublicKeys DelayedPaymentBasepoint HtlcBasepoint RevocationBasepoint PublicKey)
+    (hcp : cpkeys self.keys = some cp) (hn : n ≤ 281474976710655)
+    (h : phase2Gen validator validateChannelValue mkInfo2 node getState claimable incoming chainState validateCp
+           pubkeys cpkeys derive asCp ldkNew outgoing validatePayments setNext persist ldkSign
+           self pt n feerate toHolder toCp off recv = .ok (self', (sig, hsigs))) :
+    ∃ htlcs rtx params,
+      Channel.htlcs_info2_to_oic off recv = .ok htlcs ∧
+      Channel.make_channel_parameters pubkeys featuresEmpty self = .ok params ∧
+      ldkNew (281474976710655 - n) toCp toHolder cp.funding_pubkey (pubkeys self.keys).funding_pubkey
+          (derive self.secp_ctx pt cp.delayed_payment_basepoint cp.htlc_basepoint
+              (pubkeys self.keys).revocation_basepoint (pubkeys self.keys).htlc_basepoint)
+          feerate (htlcs.map (fun h => (h, ()))) (asCp params) = .ok rtx ∧
+      ldkSign self.keys rtx = .ok (sig, hsigs) := by
+  obtain ⟨htlcs, rtx, es', _, hoic, hrtx, hsig, _, _⟩ :=
+    C04_fn_phase2_signs_built validator validateChannelValue mkInfo2 node getState claimable incoming chainState validateCp
+      pubkeys cpkeys derive asCp ldkNew outgoing validatePayments setNext persist ldkSign self self' pt n feerate toHolder toCp
+      off recv sig hsigs h
+  obtain ⟨params, hparams, hcall⟩ :=
+    C04_fn_make_counterparty_commitment_tx pubkeys cpkeys derive asCp ldkNew self pt n feerate toHolder toCp htlcs cp hcp hn
+  rw [hcall] at hrtx
+  exact ⟨htlcs, rtx, params, hoic, hparams, hrtx, hsig⟩
 
 /-- **Both entry points build the same transaction for the same content** (generated bodies, all externals).
     Phase 2 accepted `(toHolder, toCp, off, recv)`.  If the raw entry point, given *any* transaction that decodes
@@ -961,5 +1035,197 @@ theorem C04_fn_handle_output (g : CommitmentInfo A P) (keys : S) (setup : CS) (o
     · simp [h1, h2, Rs.fail, Except.toOption]
 
 end HandleOutput
+
+/-! ## Round 9: the remaining translated functions of `tx.rs` — `CommitmentInfo2::{htlcs_is_empty, htlc_balance}`, the test-only
+    constructors, the anchor values of the decoder's accumulator -/
+
+theorem foldlM_checked_add_panic {α : Type} (max : Nat) (f : α → Nat) :
+    ∀ (l : List α) (acc : Nat), acc ≤ max →
+      List.foldlM (fun acc x => Rs.unwrap (Rs.ucheckedAdd max acc (f x))) acc l
+      = if acc + (l.map f).sum ≤ max then (.ok (acc + (l.map f).sum) : Rs.M Nat) else .error .panic := by
+  intro l
+  induction l with
+  | nil => intro acc h; simp [List.foldlM, h]
+  | cons x xs ih =>
+    intro acc hacc
+    simp only [List.foldlM_cons, List.map_cons, List.sum_cons]
+    by_cases h : acc + f x ≤ max
+    · simp only [Rs.ucheckedAdd, h, if_true, Rs.unwrap, Rs.pure_eq, Rs.bind_ok]
+      have := ih (acc + f x) h
+      simp only [Rs.ucheckedAdd, Rs.unwrap, Rs.pure_eq] at this
+      rw [this]
+      simp [Nat.add_assoc]
+    · have : ¬ acc + (f x + (xs.map f).sum) ≤ max := by omega
+      simp only [Rs.ucheckedAdd, h, if_false, Rs.unwrap, this]
+      rfl
+
+section Info2b
+open Gen.FnTxInfo2
+
+theorem C04_fn_htlcs_is_empty (g : CommitmentInfo2) :
+    CommitmentInfo2.htlcs_is_empty g = (g.offered_htlcs.isEmpty && g.received_htlcs.isEmpty) := rfl
+
+/-- `htlc_balance`: the sums and counts of the two lists *from the holder's point of view* (for a counterparty
+    commitment "offered" of the transaction is received by us); an overflowing sum is a panic (`checked_add().expect`),
+    the counts are truncated to `u32`. -/
+theorem C04_fn_htlc_balance (g : CommitmentInfo2) :
+    CommitmentInfo2.htlc_balance g =
+      let off := if g.is_counterparty_broadcaster then g.received_htlcs else g.offered_htlcs
+      let recv := if g.is_counterparty_broadcaster then g.offered_htlcs else g.received_htlcs
+      if (off.map (·.value_sat)).sum ≤ Rs.U64_MAX ∧ (recv.map (·.value_sat)).sum ≤ Rs.U64_MAX then
+        .ok ((recv.map (·.value_sat)).sum, (off.map (·.value_sat)).sum, recv.length % 2 ^ 32, off.length % 2 ^ 32)
+      else .error .panic := by
+  unfold CommitmentInfo2.htlc_balance
+  have e1 := foldlM_checked_add_panic Rs.U64_MAX (fun (h : HTLCInfo2) => h.value_sat)
+  simp only [Rs.pure_eq, bind_ok_id]
+  cases hb : g.is_counterparty_broadcaster <;>
+    simp only [Bool.false_eq_true, if_false, if_true, e1 _ 0 (Nat.zero_le _), Nat.zero_add] <;>
+    (split <;> rename_i h1) <;>
+    first
+      | (simp only [Rs.bind_err]; simp [h1])
+      | (simp only [Rs.bind_ok]; split <;> rename_i h2 <;> simp [h1, h2, Rs.utrunc, Rs.U32_MAX])
+
+end Info2b
+
+section InfoMore
+open Gen.FnTxInfo
+
+/-- test-only constructors (`#[cfg(test)]`) -/
+theorem C04_fn_new_for_holder (A P : Type) :
+    (CommitmentInfo.new_for_holder : CommitmentInfo A P) = CommitmentInfo.new false := rfl
+theorem C04_fn_new_for_counterparty (A P : Type) :
+    (CommitmentInfo.new_for_counterparty : CommitmentInfo A P) = CommitmentInfo.new true := rfl
+
+/-- the value the decoder attributes to the anchors of one side: `ANCHOR_SAT` for **exactly one** anchor, 0 otherwise
+    (two anchors of one side count as none here; the equality test of phase 1 refuses such a transaction: `Bolt3.canon`
+    has at most one per side) — in terms of the model's counters -/
+theorem C04_fn_to_broadcaster_anchor_value_sat {A P : Type} (g : CommitmentInfo A P) :
+    CommitmentInfo.to_broadcaster_anchor_value_sat Gen.Bolt3.anchorSat g
+      = if (absInfo g).anchorsB = 1 then Gen.Bolt3.anchorSat else 0 := by
+  unfold CommitmentInfo.to_broadcaster_anchor_value_sat absInfo
+  by_cases h : g.to_broadcaster_anchor_count = 1 <;> simp [h]
+theorem C04_fn_to_countersigner_anchor_value_sat {A P : Type} (g : CommitmentInfo A P) :
+    CommitmentInfo.to_countersigner_anchor_value_sat Gen.Bolt3.anchorSat g
+      = if (absInfo g).anchorsC = 1 then Gen.Bolt3.anchorSat else 0 := by
+  unfold CommitmentInfo.to_countersigner_anchor_value_sat absInfo
+  by_cases h : g.to_countersigner_anchor_count = 1 <;> simp [h]
+end InfoMore
+
+/-! ## Round 9: the third clause of C04 on the regenerated bodies — "on every commitment the semantic entry point accepts, the raw
+    entry point accepts the canonical transaction and returns the same signature"
+
+`C04_fn_phase_agree_gen`: run the **generated** phase 2 on a content; take the transaction it built (`builtTx rtx`) and its witness
+scripts; then the **generated** phase 1 on that transaction, with the same number, point, feerate and HTLC arguments, returns the *same
+commitment signature* and leaves the channel in the *same state* — for all externals that satisfy five explicitly stated facts about
+LDK and the decoder, each the counterpart of a lemma of the structured model: the decoder reads the two balances back
+(`C04_decode_canon`), `CommitmentInfo2::new` keeps the balances and LDK's builder ignores the order of the HTLC arguments
+(`canon_congr`), LDK's accessors return the number and point the transaction was built from, LDK's signer uses the funding key, the
+2-of-2 script and the channel value.  Everything VLS itself does between these facts is the kernel's, on the current source. -/
+
+section Agree
+open Gen.FnChannelCommit
+variable {InMemorySigner Txid DelayedPaymentBasepoint HtlcBasepoint RevocationBasepoint PublicKey Secp256k1
+  EnforcementState ChannelId Transaction PaymentHash Signature Validator Node NodeState BalanceDelta PaymentSummary ChainState
+  TxCreationKeys DirectedChannelTransactionParameters CommitmentTransaction ScriptBuf SecretKey : Type}
+  [DecidableEq Transaction]
+
+theorem C04_fn_phase_agree_gen
+  (txOutLen : Transaction → Nat) (validator : Validator)
+  (validateChannelValue : Validator → ChannelSetup Txid DelayedPaymentBasepoint HtlcBasepoint RevocationBasepoint PublicKey → Rs.M Unit)
+  (decode : Validator → InMemorySigner → ChannelSetup Txid DelayedPaymentBasepoint HtlcBasepoint RevocationBasepoint PublicKey → Bool → Transaction → List (List Nat) → Rs.M CommitmentInfo)
+  (mkInfo2 : Bool → Nat → Nat → List (HTLCInfo2 PaymentHash) → List (HTLCInfo2 PaymentHash) → Nat → CommitmentInfo2 PaymentHash)
+  (node : Node) (getState : Node → NodeState)
+  (claimable : EnforcementState → NodeState → Option (CommitmentInfo2 PaymentHash) → Option (CommitmentInfo2 PaymentHash) → ChannelSetup Txid DelayedPaymentBasepoint HtlcBasepoint RevocationBasepoint PublicKey → Rs.M BalanceDelta)
+  (incoming : EnforcementState → Option (CommitmentInfo2 PaymentHash) → Option (CommitmentInfo2 PaymentHash) → PaymentSummary)
+  (chainState : ChainState)
+  (validateCp : Validator → EnforcementState → Nat → PublicKey → ChannelSetup Txid DelayedPaymentBasepoint HtlcBasepoint RevocationBasepoint PublicKey → ChainState → CommitmentInfo2 PaymentHash → Rs.M Unit)
+  (pubkeys : InMemorySigner → ChannelPublicKeys DelayedPaymentBasepoint HtlcBasepoint RevocationBasepoint PublicKey)
+  (cpkeys : InMemorySigner → Option (ChannelPublicKeys DelayedPaymentBasepoint HtlcBasepoint RevocationBasepoint PublicKey))
+  (derive : Secp256k1 → PublicKey → DelayedPaymentBasepoint → HtlcBasepoint → RevocationBasepoint → HtlcBasepoint → TxCreationKeys)
+  (asCp : ChannelTransactionParameters DelayedPaymentBasepoint HtlcBasepoint RevocationBasepoint PublicKey Txid → DirectedChannelTransactionParameters)
+  (ldkNew : Nat → Nat → Nat → PublicKey → PublicKey → TxCreationKeys → Nat → List (HTLCOutputInCommitment PaymentHash × Unit) → DirectedChannelTransactionParameters → Rs.M CommitmentTransaction)
+  (builtTx : CommitmentTransaction → Transaction) (filterErr : String → Bool)
+  (numOf : CommitmentTransaction → Nat) (pointOf : CommitmentTransaction → PublicKey)
+  (redeem : PublicKey → PublicKey → ScriptBuf) (fundingKey : InMemorySigner → SecretKey)
+  (sign : CommitmentTransaction → SecretKey → ScriptBuf → Nat → Rs.M Signature)
+  (outgoing : EnforcementState → Option (CommitmentInfo2 PaymentHash) → Option (CommitmentInfo2 PaymentHash) → PaymentSummary)
+  (validatePayments : NodeState → ChannelId → PaymentSummary → PaymentSummary → BalanceDelta → Validator → Rs.M Unit)
+  (setNext : Validator → EnforcementState → Nat → PublicKey → CommitmentInfo2 PaymentHash → Rs.M EnforcementState)
+  (persist : Rs.M Unit)
+  (ldkSign : InMemorySigner → CommitmentTransaction → Rs.M (Signature × List Signature))
+  (wsOf : CommitmentTransaction → List (List Nat))
+  (self self2 : Channel InMemorySigner Txid DelayedPaymentBasepoint HtlcBasepoint RevocationBasepoint PublicKey Secp256k1 EnforcementState ChannelId)
+  (pt : PublicKey) (n feerate toHolder toCp : Nat) (off recv : List (HTLCInfo2 PaymentHash))
+  (sig : Signature) (hsigs : List Signature)
+  (h2 : phase2Gen validator validateChannelValue mkInfo2 node getState claimable incoming chainState validateCp
+          pubkeys cpkeys derive asCp ldkNew outgoing validatePayments setNext persist ldkSign
+          self pt n feerate toHolder toCp off recv = .ok (self2, (sig, hsigs)))
+  -- the decoder reads the two balances back from the built transaction and its witness scripts (model: `C04_decode_canon`)
+  (hdec : ∀ htlcs rtx, Channel.htlcs_info2_to_oic off recv = .ok htlcs →
+      Channel.make_counterparty_commitment_tx pubkeys cpkeys derive featuresEmpty asCp ldkNew self pt n feerate toHolder toCp htlcs = .ok rtx →
+      txOutLen (builtTx rtx) = (wsOf rtx).length ∧
+      decode validator self.keys self.setup true (builtTx rtx) (wsOf rtx) = .ok ⟨toHolder, toCp⟩)
+  -- `CommitmentInfo2::new` keeps the balances, and LDK's builder does not depend on the order of the HTLC arguments (model: `canon_congr`)
+  (hcs : (mkInfo2 true toHolder toCp off recv feerate).to_countersigner_value_sat = toHolder)
+  (hbc : (mkInfo2 true toHolder toCp off recv feerate).to_broadcaster_value_sat = toCp)
+  (hperm : (Channel.htlcs_info2_to_oic (mkInfo2 true toHolder toCp off recv feerate).offered_htlcs
+                (mkInfo2 true toHolder toCp off recv feerate).received_htlcs >>= fun htlcs =>
+              Channel.make_counterparty_commitment_tx pubkeys cpkeys derive featuresEmpty asCp ldkNew self pt n feerate toHolder toCp htlcs)
+           = (Channel.htlcs_info2_to_oic off recv >>= fun htlcs =>
+              Channel.make_counterparty_commitment_tx pubkeys cpkeys derive featuresEmpty asCp ldkNew self pt n feerate toHolder toCp htlcs))
+  -- LDK's accessors of the built transaction return what it was built from
+  (hnum : ∀ htlcs rtx, Channel.make_counterparty_commitment_tx pubkeys cpkeys derive featuresEmpty asCp ldkNew self pt n feerate toHolder toCp htlcs = .ok rtx →
+      numOf rtx = 281474976710655 - n ∧ pointOf rtx = pt)
+  (hn : n ≤ 281474976710655)
+  -- LDK's signer signs the commitment with the funding key over the 2-of-2 script and the channel value
+  (hsign : ∀ rtx hs, ldkSign self.keys rtx = .ok (sig, hs) →
+      sign rtx (fundingKey self.keys) (redeem (pubkeys self.keys).funding_pubkey self.setup.counterparty_points.funding_pubkey)
+        self.setup.channel_value_sat = .ok sig) :
+  ∃ rtx, phase1Gen txOutLen validator validateChannelValue decode mkInfo2 node getState claimable incoming chainState validateCp
+           pubkeys cpkeys derive asCp ldkNew builtTx filterErr numOf pointOf redeem fundingKey sign outgoing
+           validatePayments setNext persist self (builtTx rtx) (wsOf rtx) pt n feerate off recv = .ok (self2, sig) := by
+  unfold phase2Gen Channel.sign_counterparty_commitment_tx_phase2 at h2
+  obtain ⟨_, hvcv, h2⟩ := bind_eq_ok h2
+  obtain ⟨info2, hinfo2, h2⟩ := bind_eq_ok h2
+  cases hinfo2
+  obtain ⟨delta, hdelta, h2⟩ := bind_eq_ok h2
+  obtain ⟨u, hval, h2⟩ := bind_eq_ok h2
+  obtain ⟨htlcs, hoic, h2⟩ := bind_eq_ok h2
+  obtain ⟨rtx, hrtx, h2⟩ := bind_eq_ok h2
+  obtain ⟨⟨sg, hs⟩, hsig, h2⟩ := bind_eq_ok h2
+  obtain ⟨u2, hvp, h2⟩ := bind_eq_ok h2
+  obtain ⟨n1, hn1, h2⟩ := bind_eq_ok h2
+  obtain ⟨es', hes, h2⟩ := bind_eq_ok h2
+  obtain ⟨u3, hper, h2⟩ := bind_eq_ok h2
+  cases h2
+  obtain ⟨hlen, hd⟩ := hdec htlcs rtx hoic hrtx
+  obtain ⟨hnumv, hptv⟩ := hnum htlcs rtx hrtx
+  have hs1 := hsign rtx _ hsig
+  have hbuild : (Channel.htlcs_info2_to_oic (mkInfo2 true toHolder toCp off recv feerate).offered_htlcs
+                (mkInfo2 true toHolder toCp off recv feerate).received_htlcs >>= fun htlcs =>
+              Channel.make_counterparty_commitment_tx pubkeys cpkeys derive featuresEmpty asCp ldkNew self pt n feerate toHolder toCp htlcs)
+           = .ok rtx := by rw [hperm, hoic]; exact hrtx
+  obtain ⟨htlcs1, hoic1, hrtx1⟩ := bind_eq_ok hbuild
+  refine ⟨rtx, ?_⟩
+  unfold phase1Gen Channel.sign_counterparty_commitment_tx
+  have hsub : 281474976710655 - (281474976710655 - n) = n := by omega
+  have hn1' : Rs.uadd Rs.U64_MAX n 1 = .ok n1 := hn1
+  simp only [hlen, bne_self_eq_false, Bool.false_eq_true, if_false, hvcv, Rs.bind_ok, hd,
+    Channel.build_counterparty_commitment_info, Rs.pure_eq, hdelta, hval, hoic1, hcs, hbc, hrtx1,
+    hnumv, hptv, Rs.usub, Nat.sub_le, if_true, hsub, hs1, hvp, hn1', hes, hper]
+
+end Agree
+
+/-- the toy instance of the non-vacuity section: phase 2 on the content (to_holder 10, to_counterparty 20, one offered HTLC of 3 sat)
+    returns 4141 — the signature phase 1 returns for the built transaction `[20, 10, 3000]` (examples above) -/
+example : (phase2Gen (Validator := Nat) (Node := Nat) (NodeState := Nat) (BalanceDelta := Nat) (PaymentSummary := Nat)
+    (ChainState := Nat) (TxCreationKeys := Nat) (DirectedChannelTransactionParameters := Nat)
+    (CommitmentTransaction := List Nat) (Signature := Nat) (PaymentHash := Nat)
+    0 (fun _ _ => .ok ()) (fun _ a b o r _ => ⟨a, b, o, r⟩) 0 id
+    (fun _ _ _ _ _ => .ok 0) (fun _ _ _ => 0) 0 (fun _ _ _ _ _ _ _ => .ok ())
+    (fun k => ⟨k, k + 1, k + 2, k + 3⟩) (fun _ => some ⟨1, 2, 3, 4⟩) (fun _ pt a b c d => pt + a + b + c + d) (fun _ => 0)
+    (fun _ tb tc _ _ _ _ hs _ => .ok ([tb, tc] ++ hs.map (·.1.amount_msat))) (fun _ _ _ => 0) (fun _ _ _ _ _ _ => .ok ())
+    (fun _ _ n _ _ => .ok n) (.ok ()) (fun k rtx => .ok (rtx.sum + (k + 100) + (k + 1) + 1000, []))
+    toyChan 9 42 253 10 20 [⟨3, 7, 9⟩] []).toOption.map (fun r => (r.1.enforcement_state, r.2.1)) = some (43, 4141) := by decide
 
 end VlsModel.Props.C04Fn
